@@ -7,8 +7,11 @@ From Zeno Require Import Base Expr ExprSpec Seq.
 (* equal within relative tolerance 1e-9; float64 overflow (+-Inf, printed by the harness as +-10^400)
    is outside the model: two values beyond 1e300 of the same sign count as equal *)
 Definition q_huge (a:Q) : bool := Qle_bool (inject_Z (10 ^ 300)) (Qabs a).
+(* the harness prints a float64 NaN (Inf - Inf, 0 * Inf: float overflow, outside the model) as this marker *)
+Definition q_nan : Q := 999999999999999999999 # 7.
 Definition q_close (a b:Q) : bool :=
-  (q_huge a && q_huge b && Bool.eqb (Qle_bool 0 a) (Qle_bool 0 b))
+  Qeq_bool b q_nan
+  || (q_huge a && q_huge b && Bool.eqb (Qle_bool 0 a) (Qle_bool 0 b))
   || Qle_bool (Qabs (a - b)) (Qabs b * (1 # 1000000000) + (1 # 1000000000)).
 Definition qres_close (a b:Q * bool) : bool :=
   Bool.eqb (snd a) (snd b) && (negb (snd a) || q_close (fst a) (fst b)).
